@@ -136,6 +136,34 @@ def kraus_check_source():
     return []
 
 
+def guards():
+    """every `raise` that sits directly under an `if` in the state / operation modules:
+    (file, class.function, normalised test, exception type) -- the request validation of the library"""
+    rows = []
+    files = sorted(glob.glob(os.path.join(REPO, "photon_weave", "state", "*.py"))) + \
+        [os.path.join(REPO, "photon_weave", "operation", "operation.py"), os.path.join(REPO, "photon_weave", "_math", "ops.py")]
+    for fn in files:
+        rel = os.path.relpath(fn, REPO)
+        tree = ast.parse(open(fn).read())
+
+        def walk(node, qual):
+            for ch in ast.iter_child_nodes(node):
+                if isinstance(ch, ast.ClassDef):
+                    walk(ch, ch.name)
+                elif isinstance(ch, (ast.FunctionDef, ast.AsyncFunctionDef)):
+                    name = f"{qual}.{ch.name}" if qual else ch.name
+                    for n in ast.walk(ch):
+                        if isinstance(n, ast.If):
+                            for b in n.body:
+                                if isinstance(b, ast.Raise) and b.exc is not None:
+                                    exc = b.exc.func if isinstance(b.exc, ast.Call) else b.exc
+                                    rows.append((rel, name, norm_src(n.test).replace('"', "'"), norm_src(exc)))
+                else:
+                    walk(ch, qual)
+        walk(tree, "")
+    return rows
+
+
 def lstr(xs):
     return "[" + ", ".join('"' + x + '"' for x in xs) + "]"
 
@@ -175,6 +203,12 @@ def main():
     cs = contract_sites()
     for k, (a, b, c, d, e2) in enumerate(cs):
         L.append(f'  ("{a}", "{b}", "{c}", {lstr(d)}, {lstr(e2)})' + ("," if k < len(cs) - 1 else ""))
+    L.append("]\n")
+    L.append("/-- request validation: every `raise` directly under an `if` (file, class.function, test, exception) -/")
+    L.append("def guardTable : List (String × String × String × String) := [")
+    gs = guards()
+    for k, (a, b, c, d) in enumerate(gs):
+        L.append(f'  ("{a}", "{b}", "{c}", "{d}")' + ("," if k < len(gs) - 1 else ""))
     L.append("]\n")
     L.append("/-- normalised source of `kraus_identity_check` -/")
     L.append("def krausCheckSource : List String := " + lstr([x.replace('"', "'") for x in kraus_check_source()]) + "\n")
